@@ -122,4 +122,6 @@ def run(ctx):
     profile.check(ctx, rep, 'R03.P', ['slog_finish', 'slog_start'])
     from rules import witness
     witness.check(ctx, rep, 'R03.W', ['WMoveServer', 'WStatePrivate'])
+    from rules import lclone
+    lclone.check(ctx, rep, 'R03.C')
     return rep
